@@ -139,7 +139,8 @@ def eval_geom(g, surf_side, cell_in):
 
 def generate(rng, ncells=None, features=None):
     """features: optional set restricting what may appear, from
-    {"transforms","periodic","boundary","universes","lattice","complements","thermal","data_placement","shortcuts","message","trcl"}"""
+    {"transforms","periodic","boundary","universes","lattice","complements","thermal","data_placement","shortcuts","message","trcl"}
+    ("lattice", "lat_simple" and "trcl" are not in the default set; "lat_simple" = lattice cells filled with one universe)"""
     F = features if features is not None else {
         "transforms", "periodic", "boundary", "universes", "complements", "thermal", "data_placement", "shortcuts", "message",
     }
@@ -222,6 +223,12 @@ def generate(rng, ncells=None, features=None):
                 c["fill"] = rng.choice(used)
                 if tr_numbers and rng.random() < 0.3:
                     c["fill_tr"] = rng.choice(tr_numbers)
+    if "lat_simple" in F:
+        # (C09) lattice cells filled with ONE universe: lattice cells have FILL (well-formedness); hexahedral
+        # geometry is MCNP's business, not the reader's
+        for c in cells:
+            if c["fill"] is not None and rng.random() < 0.6:
+                c["lat"] = rng.choice([1, 1, 2])
     if "lattice" in F and universes:
         # a lattice cell filled with a matrix of universes: fill = [[imin,imax],[jmin,jmax],[kmin,kmax], [universe numbers]]
         used = sorted({c["u"] for c in cells if c["u"] is not None})
@@ -243,8 +250,8 @@ def generate(rng, ncells=None, features=None):
                 placement[k] = "data"
         if any(c["fill_tr"] is not None or isinstance(c["fill"], list) for c in cells):
             placement["fill"] = "cell"  # a fill with a transform / a matrix fill cannot live in the data block (MontePy raises deliberately)
-        if any(c["lat"] is not None for c in cells):
-            placement["lat"] = "cell"
+        if any(c["lat"] is not None for c in cells) and "lat_simple" not in F:
+            placement["lat"] = "cell"  # (with "lat_simple", C09's own feature, LAT may be given in the data block)
     extra = [["nps", ["1000"]]]
     if rng.random() < 0.5:
         extra.append(["sdef", ["pos", "0", "0", "0", "erg", spell(rng, fnum(rng, positive=True, small=True), False)]])
@@ -357,6 +364,8 @@ def cards(gp, rng, redundant=0.15, shortcuts=True):
         d.append({"words": ["vol"] + _compress(rng, [c["vol"] for c in cs], shortcuts), "params": [], "dollar": None})
     if place["u"] == "data" and any(c["u"] is not None for c in cs):
         d.append({"words": ["u"] + _compress(rng, [c["u"] for c in cs], shortcuts), "params": [], "dollar": None})
+    if place["lat"] == "data" and any(c.get("lat") is not None for c in cs):
+        d.append({"words": ["lat"] + _compress(rng, [c.get("lat") for c in cs], shortcuts), "params": [], "dollar": None})
     if place["fill"] == "data" and any(c["fill"] is not None for c in cs):
         d.append({"words": ["fill"] + _compress(rng, [c["fill"] for c in cs], shortcuts), "params": [], "dollar": None})
     for name, entries in gp["extra_data"]:
